@@ -1,6 +1,8 @@
 // C10 — EVM conformance: the in-tree EVM (eth/core/vm on eth/core/state) against
 // upstream go-ethereum v1.8.27 linked into the same binary (DESIGN §4.5, §5 C10,
-// §6.5).  Three exhaustively enumerated families of transactions; oracle: the
+// §6.5).  Five exhaustively enumerated families of transactions (1 opcode x
+// operands, 2 short programs, 3 call graphs, 4 stack-depth boundaries:
+// boundary.go, 5 self-destruct histories: histories.go); oracle: the
 // canonical outcome records of the two sides are equal (class, return data,
 // logs, self-destruct set, accounts/nonces/balances/code/storage).
 //
@@ -11,7 +13,8 @@
 //     for the flat families (see ampleGasFlat for why not more);
 //   - the GAS opcode only ever appears as the gas operand of a CALL-family
 //     instruction (the reference then forwards 63/64 of ample gas, the in-tree
-//     code ignores the operand);
+//     code ignores the operand), or directly followed by POP (family 4: only
+//     its stack effect is kept);
 //   - a case is excluded (and counted) when the reference does more than the work
 //     limit of instruction work (loops that only a gas limit ends: that limit is
 //     per call on the reference and per transaction in-tree), or when a step that
@@ -259,6 +262,8 @@ type driver struct {
 	n        int64
 	fmu      sync.Mutex
 	findings map[string]*finding
+	// observe (optional): called for every case runCases executed, with its index
+	observe func(i int, k *txCase, r *pairResult)
 }
 
 func caseSize(k *txCase) int {
@@ -323,7 +328,7 @@ func (d *driver) disagreement(k *txCase, r *pairResult) {
 	sig, why := d.signature(k, r)
 	key := sigString(sig)
 	// the case kept per class: simplest family first, then fewest executed instructions, then least code
-	size := caseSize(k) + map[string]int{"opcode": 0, "program": 1 << 50, "callgraph": 2 << 50}[k.Family]
+	size := caseSize(k) + map[string]int{"opcode": 0, "stackdepth": 1 << 49, "program": 1 << 50, "callgraph": 2 << 50, "history": 3 << 50}[k.Family]
 	if r.ref != nil {
 		size += int(r.ref.Meter.Steps) << 24
 	}
@@ -392,6 +397,9 @@ func (d *driver) runCases(n int, gen func(i int) *txCase, st *famStats, perOp ma
 				mu.Unlock()
 			}
 			d.sample(k, &r)
+			if d.observe != nil {
+				d.observe(i, k, &r)
+			}
 			if r.differs != "" {
 				d.disagreement(k, &r)
 			}
@@ -518,7 +526,7 @@ func main() {
 		run.Finish(nil, nil)
 	}
 
-	// development knobs (never set by vcheck): C10_FAMILIES=1,2,3 restricts the run,
+	// development knobs (never set by vcheck): C10_FAMILIES=1,2,3,4,5 restricts the run,
 	// C10_F2LEN=<n> sets the program length, C10_CPUPROFILE=<file> profiles it
 	want := func(f string) bool {
 		v := os.Getenv("C10_FAMILIES")
@@ -613,6 +621,98 @@ func main() {
 	cov["family3_call_graphs"] = s3
 	total.merge(st3)
 
+	// ---- family 4: every opcode byte on a stack of exactly d items, d around the overflow and the underflow limit
+	t4 := time.Now()
+	type f4Item struct {
+		p    f4Prog
+		ctx  string
+		mode string
+	}
+	var f4items []f4Item
+	for c := 0; c < 256; c++ {
+		for _, p := range family4Programs(c, thorough) {
+			for _, m := range modes {
+				for _, ctx := range []string{"direct", "nested", "static"} {
+					f4items = append(f4items, f4Item{p, ctx, m})
+				}
+			}
+		}
+	}
+	gen4 := func(i int) *txCase { return family4Case(f4items[i].p, f4items[i].ctx, f4items[i].mode) }
+	determinismProbe([]*txCase{gen4(0), gen4(len(f4items) / 2), gen4(len(f4items) - 1)})
+	st4 := newFamStats()
+	n4 := len(f4items)
+	if !want("4") {
+		n4 = 0
+	}
+	// reference outcome of the stack-growing opcodes by the depth they bring the stack to (called contract, aligned run)
+	var gmu sync.Mutex
+	growTo := map[string]map[string]int64{}
+	lowSide := map[string]map[string]int64{}
+	d.observe = func(i int, k *txCase, r *pairResult) {
+		it := f4items[i]
+		if r.excluded != "" || it.ctx != "direct" || it.mode != "aligned" {
+			return
+		}
+		gmu.Lock()
+		defer gmu.Unlock()
+		bump := func(m map[string]map[string]int64, key string) {
+			if m[key] == nil {
+				m[key] = map[string]int64{}
+			}
+			m[key][r.ref.Class]++
+		}
+		if it.p.Tail == "keep-top" {
+			if stackDelta(it.p.Op) == 1 && opTable[it.p.Op].defined {
+				bump(growTo, fmt.Sprint(it.p.Depth+1))
+			}
+		} else if opTable[it.p.Op].defined {
+			switch pops := opTable[it.p.Op].pops; {
+			case it.p.Depth < pops:
+				bump(lowSide, "fewer-items-than-needed")
+			case it.p.Depth == pops:
+				bump(lowSide, "exactly-the-items-needed")
+			default:
+				bump(lowSide, "one-item-more-than-needed")
+			}
+		}
+	}
+	d.runCases(n4, gen4, st4, nil)
+	d.observe = nil
+	s4 := st4.summary()
+	s4["opcode_bytes"] = 256
+	s4["fillers"] = f4Fills
+	s4["depths_before_the_opcode_overflow_side"] = []int{run.Pick(1021, 1015), 1024}
+	s4["depths_before_the_opcode_underflow_side"] = "items needed -1, +0, +1"
+	if thorough {
+		s4["depths_before_the_opcode_underflow_side"] = "0 .. items needed +1"
+	}
+	s4["reference_class_of_stack_growing_opcodes_by_resulting_depth"] = growTo
+	s4["reference_class_by_items_available"] = lowSide
+	s4["wall_s"] = time.Since(t4).Seconds()
+	cov["family4_stack_depth_boundaries"] = s4
+	total.merge(st4)
+
+	// ---- family 5: self-destruct histories inside one transaction
+	t5 := time.Now()
+	f5Len := run.Pick(4, 6)
+	specs5 := family5Specs(f5Len)
+	gen5 := func(i int) *txCase { return family5Case(specs5[i/len(modes)], modes[i%len(modes)]) }
+	n5 := len(specs5) * len(modes)
+	determinismProbe([]*txCase{gen5(0), gen5(n5 / 2), gen5(n5 - 1)})
+	st5 := newFamStats()
+	if !want("5") {
+		n5 = 0
+	}
+	d.runCases(n5, gen5, st5, nil)
+	s5 := st5.summary()
+	s5["steps"] = f5Steps
+	s5["beneficiaries"] = f5Beneficiaries
+	s5["max_steps"] = f5Len
+	s5["wall_s"] = time.Since(t5).Seconds()
+	cov["family5_selfdestruct_histories"] = s5
+	total.merge(st5)
+
 	// ---- family 2: every short program
 	maxLen := run.Pick(3, 4)
 	// thorough tier: the aligned run may use the time up to minute 10, the (smaller) app-config run up to minute 13.5
@@ -692,12 +792,12 @@ func main() {
 	cov["disagreeing_cases"] = total.Disagreements
 	cov["disagreement_classes"] = flist
 	cov["exhaustive"] = exhaustive
-	cov["exhaustive_note"] = "family 1: full operand product for arity <= 3 (quick tier: <= 2), pairwise-covering orthogonal array (169 tuples) + all-equal tuples for arity 4..6 (opcodes listed in family1_opcode_x_operands); family 2: every token sequence up to max_length_completed; family 3: every listed combination"
-	cov["bounds"] = map[string]interface{}{"family2_max_len": maxLen, "family2_app_config_max_len": appLen, "family2_time_cap_s": 600, "family2_all_six_variants_below_length": reduceFrom,
+	cov["exhaustive_note"] = "family 1: full operand product for arity <= 3 (quick tier: <= 2), pairwise-covering orthogonal array (169 tuples) + all-equal tuples for arity 4..6 (opcodes listed in family1_opcode_x_operands); family 2: every token sequence up to max_length_completed; family 3: every listed combination; family 4: every (opcode byte, depth, filler, frame kind) combination listed; family 5: every step sequence up to max_steps x beneficiary x victim balance"
+	cov["bounds"] = map[string]interface{}{"family2_max_len": maxLen, "family2_app_config_max_len": appLen, "family2_time_cap_s": 600, "family2_all_six_variants_below_length": reduceFrom, "family4_min_depth_overflow_side": run.Pick(1021, 1015), "family5_max_steps": f5Len,
 		"work_limit_gas_families_1_3": workLimitDefault, "work_limit_gas_family_2": workLimitShort, "ample_gas_family_3": ampleGas, "ample_gas_families_1_2": ampleGasFlat}
-	cov["rule"] = "a case = one transaction (pre-state, callee or creation, call data) executed on the in-tree EVM and on upstream go-ethereum v1.8.27 (Constantinople without Petersburg) in one binary; cases: (1) every opcode byte x boundary operand tuples, executed as the called contract, behind a CALL and behind a STATICCALL, (2) every sequence of <= max_length tokens of a 47-token alphabet between a prologue pushing two words and an epilogue returning memory[0:64], top of stack, MSIZE and keccak(memory), x 3 call data x 2 pre-states (programs of the longest length: only the variants they can observe syntactically - call data variants iff a CALLDATA* token occurs, pre-state variants iff SLOAD/SSTORE/SELFDESTRUCT occurs), (3) caller {CALL,CALLCODE,DELEGATECALL,STATICCALL,CREATE,CREATE2} x value {0,1} x callee {self, two contracts, precompiles 1-8 x 7 inputs, nonexistent, plain account} x 19 callee bodies x 19 inner bodies (depth 3) x caller balance / address collision, plus creation transactions; each under the in-tree chain configs 'aligned' (all forks at block 0) and 'app' (params.MainnetChainConfig as chain/app/evm uses it); distinct_nontrivial counts distinct reference outcome records (class, return data, logs, self-destructs, accounts/nonces/balances/storage, code length)"
+	cov["rule"] = "a case = one transaction (pre-state, callee or creation, call data) executed on the in-tree EVM and on upstream go-ethereum v1.8.27 (Constantinople without Petersburg) in one binary; cases: (1) every opcode byte x boundary operand tuples, executed as the called contract, behind a CALL and behind a STATICCALL, (2) every sequence of <= max_length tokens of a 47-token alphabet between a prologue pushing two words and an epilogue returning memory[0:64], top of stack, MSIZE and keccak(memory), x 3 call data x 2 pre-states (programs of the longest length: only the variants they can observe syntactically - call data variants iff a CALLDATA* token occurs, pre-state variants iff SLOAD/SSTORE/SELFDESTRUCT occurs), (3) caller {CALL,CALLCODE,DELEGATECALL,STATICCALL,CREATE,CREATE2} x value {0,1} x callee {self, two contracts, precompiles 1-8 x 7 inputs, nonexistent, plain account} x 19 callee bodies x 19 inner bodies (depth 3) x caller balance / address collision, plus creation transactions, (4) every opcode byte executed on an operand stack of exactly d items, d = 1021..1024 (thorough 1015..1024: the stack-growing opcodes PUSHn, DUPn and the zero-operand opcodes reach exactly 1022, 1023, 1024 and 1025 items) and d = items needed -1, +0, +1 (thorough 0..items needed +1), the d items produced by d straight-line fillers of 3 kinds (PUSH1 0 / PC / PUSH32 2^256-1; GAS as the gas operand of the CALL family), as the called contract, behind a CALL and behind a STATICCALL, (5) self-destruct histories inside one transaction: a driver contract performs every sequence of 1..max_steps steps {kill = call the victim which SELFDESTRUCTs, kill with value 3, fund the victim with value 5 without running SELFDESTRUCT, kill with value 3 inside a helper frame that then REVERTs} on one victim contract x beneficiary {nonexistent account, plain account, the caller, the victim itself} x initial victim balance {0, 7}, recording after every step the call flag, BALANCE(victim), BALANCE(beneficiary) in its return data and BALANCE(victim) in its storage; each under the in-tree chain configs 'aligned' (all forks at block 0) and 'app' (params.MainnetChainConfig as chain/app/evm uses it); distinct_nontrivial counts distinct reference outcome records (class, return data, logs, self-destructs, accounts/nonces/balances/storage, code length)"
 	cov["samples"] = d.samples.List()
-	run.Notes = append(run.Notes, fmt.Sprintf("wall: family1 %.1fs family3 %.1fs family2 %.1fs family2(app) %.1fs", s1["wall_s"], s3["wall_s"], s2["wall_s"], s2b["wall_s"]))
+	run.Notes = append(run.Notes, fmt.Sprintf("wall: family1 %.1fs family3 %.1fs family4 %.1fs family5 %.1fs family2 %.1fs family2(app) %.1fs", s1["wall_s"], s3["wall_s"], s4["wall_s"], s5["wall_s"], s2["wall_s"], s2b["wall_s"]))
 	pprof.StopCPUProfile()
 	run.Finish(cov, []string{
 		"upstream go-ethereum v1.8.27 core/vm + core/state is the trusted reference",
